@@ -404,6 +404,55 @@ func init() {
 			"tokens": c19Tokens})
 	}
 
+	// an error VALUE keeps its text: after VM A (language a) rejected an input, VM B (language b) rejecting the same input must
+	// not change what A's error says (error values are not shared between VMs)
+	cmds["c19-deferred"] = func(args []string) {
+		inputs := append([]string{"", " ", "\n", "(1+2", "/", "1 +\n", "[1,", "'abc", "if", "1 ? ", "x = = 1", "`{% %}`", "break", "\xff", "(骰3+"}, c19Fixed...)
+		type diff struct {
+			In     string `json:"in"`
+			LangA  int    `json:"langA"`
+			LangB  int    `json:"langB"`
+			Before string `json:"before"`
+			After  string `json:"after"`
+		}
+		var diffs []diff
+		n := 0
+		for _, src := range inputs {
+			for a := 0; a < 3; a++ {
+				for b := 0; b < 3; b++ {
+					if a == b {
+						continue
+					}
+					mk := func(lang int) *ds.Context {
+						vm := ds.NewVM()
+						c := allOn()
+						c.Lang = lang
+						c.apply(vm)
+						return vm
+					}
+					var errA error
+					func() {
+						defer func() { _ = recover() }()
+						errA = mk(a).Run(src)
+					}()
+					if errA == nil {
+						continue
+					}
+					before := errA.Error()
+					func() {
+						defer func() { _ = recover() }()
+						_ = mk(b).Run(src)
+					}()
+					n++
+					if after := errA.Error(); after != before && len(diffs) < 10 {
+						diffs = append(diffs, diff{hex.EncodeToString([]byte(src)), a, b, before, after})
+					}
+				}
+			}
+		}
+		emit(map[string]any{"checked": n, "diffs": diffs})
+	}
+
 	cmds["c19-conc"] = func(args []string) {
 		fs, seed, n := stdFlags("c19-conc")
 		ng := fs.Int("g", 6, "goroutines")
